@@ -9,6 +9,7 @@ import S3db.Model.Proto
 import S3db.Model.Txn
 import S3db.Model.Schema
 import S3db.Model.Box
+import S3db.Model.Scan
 import S3db.Gen.Facts
 /-!
 # Line-protocol driver for the correspondence checks
@@ -362,6 +363,56 @@ def schemaStep (args : List String) : String :=
     | none => "bad-op"
   | _ => "bad-op"
 
+/-! ## range scans (`Cursor.Filter` / `Cursor.Next` before SQLite's re-check) -/
+
+def showVal : Val → String
+  | .null => "N"
+  | .int i => s!"I:{i}"
+  | .real _ => "R"
+  | .text b => "T:" ++ hex b
+  | .blob b => "B:" ++ hex b
+
+open S3db.Scan in
+def parseCons : Nat → List String → List (Con (Val × String)) → Option (List (Con (Val × String)) × List String)
+  | 0, rest, acc => some (acc.reverse, rest)
+  | n + 1, op :: v :: rest, acc =>
+    let o : Option Op := match op with
+      | "eq" => some .eq | "lt" => some .lt | "le" => some .le | "ge" => some .ge | "gt" => some .gt | _ => none
+    match o, parseVal v with
+    | some o, some x => parseCons n rest ((o, (x, v)) :: acc)
+    | _, _ => none
+  | _, _, _ => none
+
+def parseEnts : Nat → List String → List ((Val × String) × Bool) → Option (List ((Val × String) × Bool))
+  | 0, [], acc => some acc.reverse
+  | n + 1, v :: d :: rest, acc =>
+    match parseVal v with
+    | some x => parseEnts n rest (((x, v), d == "1") :: acc)
+    | none => none
+  | _, _, _ => none
+
+open S3db.Scan in
+def scanStep (args : List String) : String :=
+  match args with
+  | desc :: nc :: rest =>
+    match nc.toNat? with
+    | some nc =>
+      match parseCons nc rest [] with
+      | some (cs, ne :: rest') =>
+        match ne.toNat? with
+        | some ne =>
+          match parseEnts ne rest' [] with
+          | some es =>
+            -- keys carry their original token so that REAL keys print exactly as they came
+            let cmp : (Val × String) → (Val × String) → Int := fun a b =>
+              (S3db.Gen.Key.keyOrder a.1.toSQLite (some b.1.toSQLite)).getD 0
+            " ".intercalate ((scan S3db.Gen.facts cmp (desc == "1") cs es).map (·.2))
+          | none => "bad-op"
+        | none => "bad-op"
+      | _ => "bad-op"
+    | none => "bad-op"
+  | _ => "bad-op"
+
 /-! ## keys -/
 
 def showOptInt (o : Option Int) : String := match o with | some i => toString i | none => "panic"
@@ -386,6 +437,7 @@ def step (st : State) (line : String) : State × String :=
   | "kv" :: rest => let (k, out) := kvStep st.kv rest; ({ st with kv := k }, out)
   | "key" :: rest => (st, keyStep rest)
   | "row" :: rest => (st, rowStep rest)
+  | "scan" :: rest => (st, scanStep rest)
   | "box" :: rest => (st, S3db.Box.step rest)
   | "schema" :: rest => (st, schemaStep rest)
   | "conn" :: rest => let (c, out) := connStep st.conn rest; ({ st with conn := c }, out)
